@@ -18,14 +18,17 @@ def check (j : Json) : Except String (Option String) := do
     let changed : Nat ← e.getObjValAs? Nat "changed"
     let extra : Nat ← e.getObjValAs? Nat "extra"
     match predict module kind with
-    | some true =>
+    | .preserved =>
       pure (if lost = 0 ∧ changed = 0 ∧ extra = 0 then none
         else some s!"field=kind:{module}.{kind} model=preserved impl=lost:{lost},changed:{changed},extra:{extra}")
-    | some false =>
+    | .lost =>
       pure (if after = 0 then none else some s!"field=kind:{module}.{kind} model=lost impl=present-after-import:{after}")
-    | none =>
-      pure (if (lookup derivedKinds module).contains kind then none
-        else if before = 0 ∧ after = 0 then none
+    | .latestOnly =>
+      pure (if after = min before 1 ∧ changed = 0 ∧ extra = 0 then none
+        else some s!"field=kind:{module}.{kind} model=newest-record-only impl=before:{before},after:{after},changed:{changed},extra:{extra}")
+    | .derived => pure none
+    | .unknown =>
+      pure (if before = 0 ∧ after = 0 then none
         else some s!"field=kind:{module}.{kind} model=unknown-record-kind impl=before:{before},after:{after}"))
   return allSome res
 
